@@ -323,3 +323,48 @@ Qed.
 Theorem group_passes_C19 now gdry api g a nodes pods :
   check_C19_group (ctx_of now gdry api g a nodes pods) (r_calls (scan_of now gdry api g a nodes pods)) = true.
 Proof. unfold check_C19_group. rewrite group_passes_C19_parser, group_budget_C19. reflexivity. Qed.
+
+(* ---------- the checker evaluated on observed journals asks less than the parser above: it follows from it ---------- *)
+Lemma forallb_impl {A} (f g : A -> bool) l : (forall x, f x = true -> g x = true) -> forallb f l = true -> forallb g l = true.
+Proof. intros H. rewrite !forallb_forall. intros Hf x Hx. apply H. apply Hf. exact Hx. Qed.
+
+Lemma block_matches_members batch : forall blk, block_matches batch blk = true ->
+  forallb (fun p : id * bool => existsb (fun b => mem_id (fst p) b) batch) blk = true.
+Proof.
+  induction batch as [|b batch IH]; intros [|[n ok] blk] H; try reflexivity; try discriminate.
+  cbn [block_matches] in H. apply andb_true_iff in H. destruct H as [Hm Hr].
+  cbn [forallb existsb fst]. rewrite Hm. cbn [orb andb].
+  destruct ok.
+  - specialize (IH blk Hr). eapply forallb_impl; [|exact IH]. intros p Hp. cbn beta in Hp |- *. cbn [existsb]. rewrite Hp. apply orb_true_r.
+  - destruct blk; [reflexivity | discriminate].
+Qed.
+
+Lemma some_suffix_members batch : forall blk, some_suffix_matches batch blk = true ->
+  forallb (fun p : id * bool => existsb (fun b => mem_id (fst p) b) batch) blk = true.
+Proof.
+  induction batch as [|b batch IH]; intros blk H.
+  - cbn [some_suffix_matches] in H. rewrite orb_false_r in H. apply block_matches_members. exact H.
+  - cbn [some_suffix_matches] in H. apply orb_true_iff in H. destruct H as [H|H]; [apply block_matches_members; exact H|].
+    specialize (IH blk H). eapply forallb_impl; [|exact IH]. intros p Hp. cbn beta in Hp |- *. cbn [existsb]. rewrite Hp. apply orb_true_r.
+Qed.
+
+Lemma block_ok_weaken run blk : block_ok run blk = true -> block_ok_w run blk = true.
+Proof. unfold block_ok, block_ok_w. destruct blk as [|p blk]; [reflexivity|]. apply some_suffix_members. Qed.
+
+Lemma check_C19_calls_weaken x calls : forall run blk, check_C19_calls x calls run blk = true -> check_C19_calls_w x calls run blk = true.
+Proof.
+  induction calls as [|c calls IH]; intros run blk H; cbn [check_C19_calls check_C19_calls_w] in *; [apply block_ok_weaken; exact H|].
+  destruct c as [[m o|m pp o|m o]|[g v h o|inst d o|g o|t mt ct ok fk no tp o|g ids o|ids o|inst o]]; cbn [check_C19_calls check_C19_calls_w] in *.
+  all: try (apply andb_true_iff in H; destruct H as [H1 H2]; apply andb_true_iff; split; [apply block_ok_weaken; exact H1 | apply IH; exact H2]).
+  - apply IH. exact H.
+  - apply andb_true_iff in H. destruct H as [H1 H2]. apply andb_true_iff. split; [exact H1|].
+    destruct blk as [|p blk]; [apply IH; exact H2|].
+    apply andb_true_iff in H2. destruct H2 as [H2 H3]. apply andb_true_iff. split; [apply block_ok_weaken; exact H2 | apply IH; exact H3].
+Qed.
+
+Theorem group_passes_C19_w now gdry api g a nodes pods :
+  check_C19_group_w (ctx_of now gdry api g a nodes pods) (r_calls (scan_of now gdry api g a nodes pods)) = true.
+Proof.
+  pose proof (group_passes_C19 now gdry api g a nodes pods) as H. unfold check_C19_group, check_C19_group_w in *.
+  apply andb_true_iff in H. destruct H as [H1 H2]. apply andb_true_iff. split; [apply check_C19_calls_weaken; exact H1 | exact H2].
+Qed.
